@@ -5,3 +5,6 @@ import XzVerif.Props.C04
 #print axioms Props.C04.C04_tail_verified
 #print axioms Props.C04.C04_clean_means_verified_and_consumed
 #print axioms Props.C04.C04_lazy_clean_end_is_verified
+#print axioms Props.C04.C04_source_readUvarint
+#print axioms Props.C04.C04_source_padLen
+#print axioms Props.C04.C04_source_translation_complete
